@@ -665,6 +665,11 @@ func (s *Server) Exec(op *Op) {
 		r.Samp, r.Code, r.Msg = s.sample(name)
 	case "GcPass":
 		s.Srv.VerifGC(name, bigtable.Timestamp(int64(op.Now)), true)
+	case "GcAuto":
+		if op.Idle {
+			s.Srv.VerifSetIdle(name, 6*time.Minute)
+		}
+		s.Srv.VerifGC(name, bigtable.Timestamp(int64(op.Now)), false)
 	default:
 		panic("unknown op " + op.Ev)
 	}
